@@ -20,6 +20,12 @@ pub use vax::*;
 pub open spec fn is_prefix(p: Seq<char>, s: Seq<char>) -> bool { p.len() <= s.len() && s.subrange(0, p.len() as int) == p }
 pub open spec fn is_suffix(p: Seq<char>, s: Seq<char>) -> bool { p.len() <= s.len() && s.subrange(s.len() - p.len(), s.len() as int) == p }
 
+/// UTF-8 fact (ASSUMED): an ASCII character is encoded as one byte, so if a string ends with an
+/// ASCII character then `len - 1` is a char boundary and the string is at least one byte long.
+pub broadcast axiom fn axiom_ascii_suffix_boundary(s: Seq<char>, c: char)
+    requires #[trigger] is_suffix(seq![c], s), (c as u32) < 128,
+    ensures encode_utf8(s).len() >= 1, is_char_boundary(encode_utf8(s), encode_utf8(s).len() - 1);
+
 // str::starts_with: "Returns true if the given pattern matches a prefix of this string slice."
 #[verifier::allow(undeclared_external_trait)]
 pub assume_specification<P: Pattern>[ str::starts_with::<P> ](s: &str, pat: P) -> (r: bool)
